@@ -141,11 +141,14 @@ def _instances(tier):
     if tier == "quick":
         return ([{"pre": p, "step": s} for p, s in QUICK]
                 + [{"pre": p, "step": "none", "query": True} for p in QUERY_Q])
-    out = [{"pre": p, "step": "none", "query": True, "full": True} for p in QUERY_T]
+    out = [{"pre": p, "step": "none", "query": True, "full": True} for p in ("A", "AB", "AgB", "AmB")]
+    out += [{"pre": p, "step": "none", "query": True} for p in ("ABq", "ABC")]
     for p in PRE:
         for s in STEP:
             if s == "none":
                 continue
+            if p == "ABC" and s not in ("rmA", "rmB", "addNs", "setq3", "pt"):
+                continue  # three pre-registered objects: single steps only (six symbolic times already)
             keys = {op[1] for op in PRE[p] if op[0] == "add"}
             need = {op[1] for op in STEP[s] if op[0] == "rm"}
             if need <= keys:
@@ -366,7 +369,7 @@ HARNESSES = [
         make=make,
         instances=_instances,
         models=["syminterp"],
-        budget={"quick": 120.0, "thorough": 600.0},
+        budget={"quick": 120.0, "thorough": 900.0},
         functions=["Part.add", "Part.remove", "Part._add_point", "Part._remove_point", "Part._cleanup_point",
                    "Part.get_point", "Part.get_or_add_point", "Part.set_quarter_duration", "Part.quarter_durations",
                    "Part.quarter_duration_map", "Part.iter_all", "Part.first_point", "Part.last_point",
